@@ -34,6 +34,14 @@ class BrentsRootFinder:
         self.next_abscissa: Optional[float] = None
 
     def get_next_abscissa(self) -> float:
+        if self.fb == 0:
+            # b is an exact root: query it again so that the bracket collapses
+            # onto it. Interpolating further could hit a second exact zero
+            # (e.g. a plateau of the function), leaving fa == fb == 0 and
+            # making the next secant step divide by zero.
+            self.next_abscissa = self.b
+            return self.next_abscissa
+
         if abs(self.fc - self.fa) < self.epsilon or abs(self.fc - self.fb) < self.epsilon:
             # Secant method
             dx = self.fb * (self.b - self.a) / (self.fa - self.fb)
